@@ -98,6 +98,15 @@ def apply_local(psi, axes, u):
     return np.moveaxis(res, list(range(k)), list(axes))
 
 
+# ---- truncation settings: the ways of switching a tolerance "off" / to its default ---------------------
+_NINF = float("-inf")
+# (rel_tol, total_tol); with a finite max_bond_dim every one of them means "truncate (essentially) by bond dimension only"
+TOL_IDIOMS = [(_NINF, _NINF),      # both tolerances deactivated (the library's idiom), only max_bond_dim truncates
+              (0.0, 0.0),          # tolerance 0: only exact zeros are discarded
+              (1e-15, 1e-15),      # the dataclass defaults
+              (_NINF, 0.0), (0.0, _NINF), (_NINF, 1e-15), (1e-15, _NINF)]
+
+
 # ---- splitting specifications ------------------------------------------------------------------------
 FACTORS = [1.0, 0.5, -1.3, 2.0, 0.0, -0.25, 0.7, 3.1, -2.2, 0.05 + 0.3j]
 
@@ -331,7 +340,10 @@ class C08(Prop):
             "keys in either order, a third of the multi-site terms with an exact identity (np.eye) on one position, 10 factors incl. 0, negative and complex, SWAP lists before/after, direct constructor or from_lists with "
             "int/pair/default splittings, `dim` or reference-ttn dimension source) -> gate sequence; (tebd) random trees of 2-6 nodes built with "
             "shuffled legs (some bystander nodes with 0 or 2 open legs), nearest-neighbour splittings with generic non-Hermitian / real / Hermitian / "
-            "integer-nilpotent generators, 1-3 steps, truncation off or random (value or sum mode, max_bond_dim 1-4 that binds, tiny to large tolerances, renorm / sum_renorm on and off), observed after every sub-operation "
+            "integer-nilpotent generators, 1-3 steps, truncation off or random (value or sum mode, max_bond_dim 1-4 that binds, tiny to large tolerances, renorm / sum_renorm on and off), "
+            "plus a stratified bond-dimension-only family: max_bond_dim 1-3 below the exact rank (all dimensions >= 2) with every way of switching the tolerances off or to "
+            "their default — (rel_tol, total_tol) in {(-inf,-inf) twice as often, (0,0), (1e-15,1e-15), (-inf,0), (0,-inf), (-inf,1e-15), (1e-15,-inf)}, value mode (80%) and sum mode, "
+            "the bond left by every single two-site gate and every bond after every step judged against max_bond_dim; observed after every sub-operation "
             "of every gate; (swapmat) swap_gate(d), d = 0..6; plus a malformed stream (non-neighbours, unequal SWAP dimensions, three-site terms, "
             "unknown identifiers, wrong operator size, out-of-range from_lists indices) that both sides must reject at the same place. "
             "non-trivial = a tebd case with a two-site gate or a split case with at least two gates")
@@ -369,7 +381,8 @@ class C08(Prop):
               "direct contract check above and through the dense oracle"),
         ("V", "new state vector = ordered product of dense unitaries applied to the old one (run_one_time_step on its own instance) — the end-to-end numerical "
               "counterpart of C08_tebd_step_value, which is a theorem about the model's diagrams with opaque atom tables, not about floating-point arrays; "
-              "bond dimensions within [1, max_bond_dim] under truncation; caller's state untouched: dense numpy oracle"),
+              "bond dimensions within [1, max_bond_dim] under truncation (after every two-site gate and after every step, for random tolerances and for every "
+              "tolerance-off idiom of TOL_IDIOMS combined with a binding max_bond_dim); caller's state untouched: dense numpy oracle"),
     ]
     trusted_base = ["scipy.linalg.expm (validated against an independent series / eigendecomposition exponential, tolerance 1e-9 relative)",
                     "LAPACK SVD: U . (S Vh) contracts back to the input when nothing is truncated = the premise def_holds / tebd_contracts of "
@@ -401,6 +414,12 @@ class C08(Prop):
         for j in range(ctx.scale(8, 60) * budget_scale):
             cases.append({"kind": "tebd", "seed": rng.randrange(10 ** 9), "nnodes": rng.choice([2, 3, 4, 4, 5]), "nsteps": rng.choice([1, 2]),
                           "trunc": True, "malformed": False, "ints": False, "ghz": True})
+        # bond-dimension-only truncation: every tolerance idiom of TOL_IDIOMS (stratified, the all-deactivated one twice as often)
+        # with a small max_bond_dim on states / gates whose exact rank is above it
+        sched = [0] + list(range(len(TOL_IDIOMS)))
+        for j in range(ctx.scale(10, 120) * budget_scale):
+            cases.append({"kind": "tebd", "seed": rng.randrange(10 ** 9), "nnodes": rng.choice([2, 3, 3, 4, 4, 5]), "nsteps": rng.choice([1, 2, 2]),
+                          "trunc": True, "malformed": False, "ints": False, "tol": sched[j % len(sched)]})
         return cases
 
     def nontrivial(self, case):
@@ -414,6 +433,8 @@ class C08(Prop):
                 c[f"nodes={x['nnodes']}"] += 1
                 c[f"steps={x['nsteps']}"] += 1
                 c["trunc" if x["trunc"] else "notrunc"] += 1
+                if x.get("tol") is not None:
+                    c["trunc:bond-only-family"] += 1
         c.update(getattr(self, "_stats", {}))
         return dict(c)
 
@@ -516,6 +537,10 @@ class C08(Prop):
             # every bond is exactly degenerate, so a binding max_bond_dim has to cut THROUGH a degenerate group
             dimc = (rng.choice([2, 3, 4]),)
             nopen = (1,)
+        if case.get("tol") is not None:
+            # dimensions >= 2 everywhere, so that the exact rank of a two-site gate is above a small max_bond_dim
+            dimc = rng.choice([(2, 3), (3,), (2, 3, 3), (2,), (3, 4)])
+            nopen = (1,) if nn <= 2 else (1, 1, 1, 1, 1, 1, 1, 2)
         ops = gen_build(rng, nn, nopen_choices=nopen, dim_choices=dimc)
         if case.get("contr_name"):
             # rename a node that will not take part in the first two-site gate to the reserved name
@@ -602,7 +627,15 @@ class C08(Prop):
                     else:
                         s = spec["steps"][min(pos, len(spec["steps"]) - 1)]
                         s[rng.choice(["before", "after"])] = [bad_swap]
-        if case["trunc"]:
+        if case["trunc"] and case.get("tol") is not None:
+            rel, tot = TOL_IDIOMS[case["tol"]]
+            svd = SVDParameters(max_bond_dim=rng.choice([1, 1, 2, 2, 3]), rel_tol=rel, total_tol=tot, renorm=rng.random() < 0.3,
+                                sum_trunc=rng.random() < 0.2, sum_renorm=rng.random() < 0.5)
+            svd_desc = [svd.max_bond_dim, svd.rel_tol, svd.total_tol, svd.renorm, svd.sum_trunc, svd.sum_renorm]
+            self._stats[f"trunc:tol=({rel:g},{tot:g})"] += 1
+            self._stats["trunc:sum-mode" if svd.sum_trunc else "trunc:value-mode"] += 1
+            self._stats[f"trunc:max_bond={svd.max_bond_dim}"] += 1
+        elif case["trunc"]:
             if rng.random() < 0.5:
                 # sum mode: tiny tolerances so that a small max_bond_dim is what binds
                 svd = SVDParameters(max_bond_dim=rng.choice([1, 1, 2, 2, 3]), rel_tol=rng.choice([float("-inf"), 1e-12]),
@@ -1117,6 +1150,15 @@ class C08(Prop):
                             f"(max diff {float(np.max(np.abs(got - psi))) if got.shape == psi.shape else 'shape'}, scale {scale:.2e})")
             else:
                 mb = ob["svd"][0]
+                if stepno == 0:
+                    # the bond every single two-site gate of the observed run leaves behind
+                    for j, g in enumerate(ob["gates"]):
+                        if g.get("bond") is not None and not 1 <= g["bond"] <= mb:
+                            gi = ob["exponents"][j % len(ob["exponents"])]["ids"]
+                            return (f"gate {j} on {gi}: the new bond has dimension {g['bond']}, outside [1, {mb}] "
+                                    f"(max_bond_dim={mb}, rel_tol={ob['svd'][1]}, total_tol={ob['svd'][2]}, sum_trunc={ob['svd'][4]})")
+                    if any(g.get("bond") == mb for g in ob["gates"]):
+                        self._stats["trunc:a-bond-equals-max"] += 1
                 for k, (dc, dp) in ss["bonds"].items():
                     if dc != dp:
                         return f"after step {stepno + 1}: bond above {k} has different dimensions at its two ends ({dc}, {dp})"
@@ -1129,7 +1171,8 @@ class C08(Prop):
                 for k in touched:
                     dc = ss["bonds"][k][0]
                     if dc < 1 or dc > mb:
-                        return f"after step {stepno + 1}: bond above {k} has dimension {dc}, outside [1, {mb}]"
+                        return (f"after step {stepno + 1}: bond above {k} has dimension {dc}, outside [1, {mb}] "
+                                f"(max_bond_dim={mb}, rel_tol={ob['svd'][1]}, total_tol={ob['svd'][2]}, sum_trunc={ob['svd'][4]})")
                 psi = np.array(ss["psi"], dtype=complex)      # continue from the truncated state
         return None
 
